@@ -95,6 +95,7 @@ func c03(c *core.Ctx) {
 
 	// decode → encode → decode is stable only if Encode writes every field Decode reads, under the same presence
 	// guard: C01's pair comparison applies verbatim to the hand-written codecs of package ua
+	c01timeAs(c, "C03.time")
 	c.Rule("C03.reencode", "for every hand-written ua codec pair, Encode writes each field under the same presence guard (mask test / case label) under which Decode reads it: a non-canonical but decodable value (a picoseconds bit without its timestamp bit) is re-encoded with exactly the fields its mask announces", 8)
 	{
 		tmp := core.NewCtx(c.Prop, c.Tier, c.P)
